@@ -592,6 +592,9 @@ type cacheCase struct {
 	Offset int        `json:"offset,omitempty"`
 	Byte   int        `json:"byte,omitempty"`
 	Twice  bool       `json:"second_initialisation"`
+	// Earlier: before the case proper another book lives at the same path in this process (built with the cache
+	// enabled and loaded back once), then all its files are removed - a book file that was replaced
+	Earlier bool `json:"earlier_book_at_same_path,omitempty"`
 }
 
 func sourceBook(games []bookGame) (string, bookModel) {
@@ -619,14 +622,36 @@ func initWithWatchdog(dir, name string) (b *openingbook.Book, err error, hung bo
 	}
 }
 
-func propC20(c cacheCase, o *hx.Obs) *hx.Failure {
-	text, m := sourceBook(c.Games)
-	dir, err := os.MkdirTemp("", "verifcache")
-	if err != nil {
+// cacheDir returns the same (emptied) directory for every case of this process: over the life of an engine
+// process the same book path sees different book and cache contents, so nothing remembered about a path
+// (rather than read from the files) may survive from one case to the next.
+func cacheDir(tag string) string {
+	dir := filepath.Join(os.TempDir(), fmt.Sprintf("verifcache-%s-%d", tag, os.Getpid()))
+	os.RemoveAll(dir)
+	if err := os.MkdirAll(dir, 0o755); err != nil {
 		panic(err)
 	}
+	return dir
+}
+
+func propC20(c cacheCase, o *hx.Obs) *hx.Failure {
+	text, m := sourceBook(c.Games)
+	dir := cacheDir("main")
 	defer os.RemoveAll(dir)
 	name := "book.san"
+	if c.Earlier {
+		const earlier = "1. d4 d5 2. c4 e6 3. Nc3 Nf6\n1. d4 Nf6 2. c4 g6\n1. c4 e5\n"
+		if _, err := buildBook(earlier, openingbook.San, true, dir, name); err != nil {
+			return hx.Failf("C20/build/error", "Initialize of the earlier book: %v", err)
+		}
+		if _, _, hung, fl := initWithWatchdog(dir, name); hung {
+			hx.Die("C20/initialize/hang/earlier", "Initialize with the intact cache of the earlier book did not return within 8 s")
+		} else if fl != nil {
+			return fl
+		}
+		dir = cacheDir("main") // all files of the earlier book are gone
+		o.Label("earlier-book-at-same-path")
+	}
 	// build from source with the cache enabled: writes book.san.cache
 	b0, err0 := buildBook(text, openingbook.San, true, dir, name)
 	if err0 != nil {
@@ -757,6 +782,7 @@ type sideBook struct {
 	Name   string     `json:"name"`
 	Format int        `json:"format"` // 0 simple, 1 san, 2 pgn
 	Games  []bookGame `json:"games"`
+	Games2 []bookGame `json:"games_after_rewrite,omitempty"` // content after an "update of the book file" step
 }
 
 type sideCase struct {
@@ -765,10 +791,7 @@ type sideCase struct {
 }
 
 func propC20Side(c sideCase, o *hx.Obs) *hx.Failure {
-	dir, err := os.MkdirTemp("", "verifcacheside")
-	if err != nil {
-		panic(err)
-	}
+	dir := cacheDir("side")
 	defer os.RemoveAll(dir)
 	formats := []openingbook.BookFormat{openingbook.Simple, openingbook.San, openingbook.Pgn}
 	models := make([]bookModel, len(c.Books))
@@ -782,6 +805,23 @@ func propC20Side(c sideCase, o *hx.Obs) *hx.Failure {
 	}
 	seenBefore := map[int]bool{}
 	for step, bi := range c.Order {
+		// an entry >= len(Books) is an update of book bi-len: the file is rewritten with other games and
+		// initialised with recreateCache=true (what a user does after editing the book)
+		recreate := false
+		if bi >= len(c.Books) {
+			bi -= len(c.Books)
+			if bi >= len(c.Books) || len(c.Books[bi].Games2) == 0 {
+				continue
+			}
+			recreate = true
+			nb := c.Books[bi]
+			text := renderBook(bookCase{Games: nb.Games2}, formats[nb.Format])
+			if err := os.WriteFile(filepath.Join(dir, nb.Name), []byte(text), 0o644); err != nil {
+				panic(err)
+			}
+			models[bi] = modelOf(nb.Games2)
+			o.Label("side-by-side:book-file-rewritten-and-cache-recreated")
+		}
 		b := c.Books[bi]
 		var book *openingbook.Book
 		var ierr error
@@ -789,7 +829,7 @@ func propC20Side(c sideCase, o *hx.Obs) *hx.Failure {
 		go func() {
 			done <- hx.Guard("C20/side/initialize", func() *hx.Failure {
 				book = openingbook.NewBook()
-				ierr = book.Initialize(dir, b.Name, formats[b.Format], true, false)
+				ierr = book.Initialize(dir, b.Name, formats[b.Format], true, recreate)
 				return nil
 			})
 		}()
@@ -881,19 +921,19 @@ func TestC20(t *testing.T) {
 	// exhaustive over every prefix length of the cache files of generated books
 	nbooks := r.N(5, 10)
 	hx.Sub(r, "books", nbooks, func(t *rapid.T) cacheCase {
-		return cacheCase{Games: genGames(t, 12, 12, false), Kind: "roundtrip", Twice: true}
+		return cacheCase{Games: genGames(t, 12, 12, false), Kind: "roundtrip", Twice: true, Earlier: true}
 	}, func(c cacheCase, o *hx.Obs) *hx.Failure {
 		if f := propC20(c, o); f != nil {
 			return f
 		}
 		for _, k := range []string{"missing", "empty"} {
-			if f := propC20(cacheCase{Games: c.Games, Kind: k, Twice: true}, o); f != nil {
+			if f := propC20(cacheCase{Games: c.Games, Kind: k, Twice: true, Earlier: true}, o); f != nil {
 				return f
 			}
 		}
 		// every crash point of the save
 		text, _ := sourceBook(c.Games)
-		dir, _ := os.MkdirTemp("", "verifcachelen")
+		dir := cacheDir("len")
 		defer os.RemoveAll(dir)
 		if _, err := buildBook(text, openingbook.San, true, dir, "b.san"); err != nil {
 			return hx.Failf("C20/build/error", "%v", err)
@@ -920,16 +960,21 @@ func TestC20(t *testing.T) {
 		n := rapid.IntRange(2, 3).Draw(t, "nbooks")
 		var c sideCase
 		for i := 0; i < n; i++ {
-			c.Books = append(c.Books, sideBook{Name: names[i], Format: rapid.IntRange(0, 2).Draw(t, "format"), Games: genGames(t, 6, 8, false)})
+			sb := sideBook{Name: names[i], Format: rapid.IntRange(0, 2).Draw(t, "format"), Games: genGames(t, 6, 8, false)}
+			if rapid.Bool().Draw(t, "rewritten") {
+				sb.Games2 = genGames(t, 6, 8, false)
+			}
+			c.Books = append(c.Books, sb)
 		}
 		for i := rapid.IntRange(n, 3*n).Draw(t, "steps"); i > 0; i-- {
-			c.Order = append(c.Order, rapid.IntRange(0, n-1).Draw(t, "which"))
+			// 0..n-1: initialise book i with the cache enabled; n..2n-1: rewrite book i-n and recreate its cache
+			c.Order = append(c.Order, rapid.IntRange(0, n+n/2).Draw(t, "which"))
 		}
 		return c
 	}, propC20Side)
 
 	hx.Sub(r, "corruptions", r.N(250, 1500), func(t *rapid.T) cacheCase {
 		return cacheCase{Games: genGames(t, 10, 10, false), Kind: rapid.SampledFrom([]string{"flip", "flip", "splice", "garbage", "prefix"}).Draw(t, "kind"),
-			Offset: rapid.IntRange(0, 5000).Draw(t, "off"), Byte: rapid.IntRange(0, 255).Draw(t, "byte"), Twice: rapid.Bool().Draw(t, "twice")}
+			Offset: rapid.IntRange(0, 5000).Draw(t, "off"), Byte: rapid.IntRange(0, 255).Draw(t, "byte"), Twice: rapid.Bool().Draw(t, "twice"), Earlier: rapid.IntRange(0, 2).Draw(t, "earlier") == 0}
 	}, propC20)
 }
